@@ -15,7 +15,8 @@ LIGHT_NAMES = ['Top', 'Middle', 'Bottom', 'Lamp', 'Chair Side', 'table-0', 'tabl
                'Candle', 'Tube', 'a', 'Z', 'light_1', 'x y', 'Ab', 'aB']
 GROUP_NAMES = ['Pole', 'Furniture', 'Table', 'g 1']
 LOC_NAMES = ['Home', 'Living Room', 'loc']
-VAR_POOL = ['x', 'y', 'z', 'i', 'j', 'n', 'v', 'w', 'acc', 'tmp', 'cnt', 'idx', 'val', 'p', 'q', 'the_light', 'brt']
+VAR_POOL = ['x', 'y', 'z', 'i', 'j', 'n', 'v', 'w', 'acc', 'tmp', 'cnt', 'idx', 'val', 'p', 'q', 'the_light', 'brt',
+            'result', 'Hue', 'pc', 'power', 'name', 'Duration']       # also names of the VM's internal registers and case variants
 ROUTINE_POOL = ['f', 'g_', 'h_', 'foo', 'bar', 'do_it', 'calc', 'step']
 EXACT_FLOATS = ['0.5', '0.25', '1.5', '2.75', '10.5', '0.125', '3.0']
 ANY_FLOATS = ['0.1', '33.3', '1.234', '12.7', '99.99', '0.05', '7.3']
